@@ -35,6 +35,8 @@ mod c18;
 mod c19;
 mod c16;
 mod c20;
+mod c20_more;
+mod c20_src;
 mod enc;
 mod out;
 mod redisx;
@@ -56,6 +58,12 @@ pub mod cfg {
     /// CrashSimulator::crashed_nodes / recovering_nodes: true = sorted by node id (3012c3c),
     /// false = HashMap iteration order (the pinned code); sent to the C20 model with every `RUN dst`
     pub const CODE_DST_SORTS_NODES: bool = true;
+    /// SimulatedNode::get_all_deltas: true = sorted by key (fixes-sim-s3 e148545), false = HashMap
+    /// iteration order (the code as it is); sent to the C20 model with every `DELTAS` line
+    pub const CODE_MN_SORTS_DELTAS: bool = false;
+    /// DSTSimulation::with_config: true = resets the thread's BUGGIFY statistics (fixes-sim-s3), false = the
+    /// statistics copied into SimulationResult are cumulative over every run on the thread (the code as it is)
+    pub const CODE_DST_RESETS_STATS: bool = false;
     /// segment DeltaIterator: true = error when fewer records than record_count are present
     pub const CODE_SEGMENT_STRICT_COUNT: bool = true;
 
